@@ -44,6 +44,9 @@ func mod64(idx *sym.Term) (*sym.Term, bool) {
 // equivalent decides propositional equivalence of two boolean terms by truth
 // table over their atoms (comparisons are atoms).
 func equivalent(a, b *sym.Term) bool {
+	if sym.Eq(a, b) {
+		return true
+	}
 	return sym.CondsContradict([]*sym.Term{a, sym.Not(b)}) && sym.CondsContradict([]*sym.Term{sym.Not(a), b})
 }
 
@@ -181,108 +184,7 @@ func ruleC04(c *Ctx) {
 		R.Check(ok && x.Key() == "$param:"+s.param, "render.(*Renderer)."+s.method+"#"+s.sel, c.FPos(fn), "argument & 63", shortKey(after))
 	}
 
-	// ---- C04.4 Resolve ----
-	R.Rule("C04.4", "colours are resolved when stored: SetCReg stores Color.Resolve(&palette, &registers); Resolve reads the palette / the registers at the masked index per colour kind; a blend resolves both one-byte operands and combines them with the specification's formula", 8)
-	if fn := c.Method("", "Color", "Resolve", false); fn != nil {
-		pos := c.FPos(fn)
-		key := "ivg.(Color).Resolve"
-		typOf := func(ctor string) *sym.Term {
-			f := c.Fn("", ctor)
-			if f == nil {
-				return nil
-			}
-			in := c.Interp()
-			res, _, _ := in.Run(f, nil, nil)
-			if res == nil || res.Op != "agg" || len(res.Args) != 2 {
-				return nil
-			}
-			return res.Args[0]
-		}
-		ch := []*sym.Term{sym.Atom("R", u8t), sym.Atom("G", u8t), sym.Atom("B", u8t), sym.Atom("A", u8t)}
-		data := &sym.Term{Op: "agg", Args: ch}
-		run := func(typ *sym.Term) (*sym.Term, *sym.Interp) {
-			in := c.Interp()
-			h := c.newRendHooks(in)
-			h.opaque["Resolve"] = true
-			h.opaque["DecodeColor1"] = true
-			col := &sym.Term{Op: "agg", Args: []*sym.Term{typ, data}}
-			args := in.RootArgs(fn)
-			args[0] = col
-			res, _, _ := in.Run(fn, args, nil)
-			return res, in
-		}
-		if t := typOf("RGBAColor"); t != nil {
-			res, _ := run(t)
-			R.Check(res != nil && normAgg(res) == normAgg(data), key+"#kind=RGBA", pos, "the colour itself", shortKey(res))
-		}
-		for _, k := range []struct{ ctor, table string }{{"PaletteIndexColor", "palette"}, {"CRegColor", "cReg"}} {
-			t := typOf(k.ctor)
-			if t == nil {
-				R.Anchor("constructor ivg." + k.ctor)
-				continue
-			}
-			res, _ := run(t)
-			ok := res != nil && res.Op == "index" && res.Args[0].Key() == "$init:param:"+k.table
-			if ok {
-				x, isMod := mod64(res.Args[1])
-				ok = isMod && x.Key() == "$R"
-			}
-			R.Check(ok, key+"#kind="+k.ctor, pos, k.table+"[index & 63]", shortKey(res))
-		}
-		if t := typOf("BlendColor"); t != nil {
-			res, _ := run(t)
-			// each channel k: uint8(((255-t)*c0.k + t*c1.k + 128) / 255) with c0 = DecodeColor1(G).Resolve(..), c1 = DecodeColor1(B).Resolve(..)
-			if res == nil || res.Op != "agg" || len(res.Args) != 4 {
-				R.Bad(key+"#kind=Blend", pos, "an RGBA value with four blended channels", shortKey(res))
-			} else {
-				for k, name := range []string{"R", "G", "B", "A"} {
-					t := res.Args[k]
-					for t.Op == "conv" {
-						t = t.Args[0]
-					}
-					construct := key + "#kind=Blend:" + name
-					if t.Op != "bin" || t.Name != "/" {
-						R.Bad(construct, pos, "(...)/255", shortKey(t))
-						continue
-					}
-					if d, ok := t.Args[1].Int64(); !ok || d != 255 {
-						R.Bad(construct, pos, "division by 255", shortKey(t.Args[1]))
-						continue
-					}
-					env := poly.NewEnv()
-					env.Rename["$R"] = "t"
-					got, ok := env.One(t.Args[0])
-					if !ok {
-						R.Unknown(construct, pos, "numerator has no normal form: "+shortKey(t.Args[0]))
-						continue
-					}
-					// find the two resolved operands among the atoms
-					var c0, c1 string
-					for name, at := range env.Atoms {
-						if at.Op != "field" || at.Name != fmt.Sprint(k) {
-							continue
-						}
-						inner := at.Args[0]
-						if inner.Op == "call" && inner.Name == "Resolve" && len(inner.Args) == 3 && inner.Args[0].Op == "call" && inner.Args[0].Name == "DecodeColor1" &&
-							inner.Args[1].Key() == "&param:palette" && inner.Args[2].Key() == "&param:cReg" {
-							switch inner.Args[0].Args[0].Key() {
-							case "$G":
-								c0 = name
-							case "$B":
-								c1 = name
-							}
-						}
-					}
-					if c0 == "" || c1 == "" {
-						R.Bad(construct, pos, "channel "+name+" of DecodeColor1(c0).Resolve(palette, cReg) and of DecodeColor1(c1).Resolve(palette, cReg)", got.String())
-						continue
-					}
-					want := poly.RatInt(255).Sub(v("t")).Mul(v(c0)).Add(v("t").Mul(v(c1))).Add(poly.RatInt(128))
-					R.Check(got.Equal(want), construct, pos, "((255-t)*c0 + t*c1 + 128)/255", got.String())
-				}
-			}
-		}
-	}
+	ruleResolve(c, "C04.4")
 
 	// ---- C04.5/6 StartPath: paint classification and LOD test ----
 	R.Rule("C04.5", "StartPath: the path is disabled iff its paint is disabled or not (LOD0 <= H < LOD1) with H the raster height; rasteriser activity happens exactly when it is not disabled", 3)
@@ -543,4 +445,116 @@ func prevOffsetPhi(fr *sym.Frame, phiAtom, off *sym.Term) bool {
 		}
 	}
 	return false
+}
+
+// ruleResolve decides Color.Resolve per colour kind: direct colours are
+// themselves, palette/register references read the right table at the masked
+// index, and a blend combines its two resolved one-byte operands with
+// ((255-t)*c0 + t*c1 + 128)/255 per channel. Shared by C04.4 and C09.5; the
+// rule must have been declared by the caller.
+func ruleResolve(c *Ctx, ruleID string) {
+	R := c.R
+	R.Use(ruleID)
+	u8t := types.Typ[types.Uint8]
+	if fn := c.Method("", "Color", "Resolve", false); fn != nil {
+		pos := c.FPos(fn)
+		key := "ivg.(Color).Resolve"
+		typOf := func(ctor string) *sym.Term {
+			f := c.Fn("", ctor)
+			if f == nil {
+				return nil
+			}
+			in := c.Interp()
+			res, _, _ := in.Run(f, nil, nil)
+			if res == nil || res.Op != "agg" || len(res.Args) != 2 {
+				return nil
+			}
+			return res.Args[0]
+		}
+		ch := []*sym.Term{sym.Atom("R", u8t), sym.Atom("G", u8t), sym.Atom("B", u8t), sym.Atom("A", u8t)}
+		data := &sym.Term{Op: "agg", Args: ch}
+		run := func(typ *sym.Term) (*sym.Term, *sym.Interp) {
+			in := c.Interp()
+			h := c.newRendHooks(in)
+			h.opaque["Resolve"] = true
+			h.opaque["DecodeColor1"] = true
+			col := &sym.Term{Op: "agg", Args: []*sym.Term{typ, data}}
+			args := in.RootArgs(fn)
+			args[0] = col
+			res, _, _ := in.Run(fn, args, nil)
+			return res, in
+		}
+		if t := typOf("RGBAColor"); t != nil {
+			res, _ := run(t)
+			R.Check(res != nil && normAgg(res) == normAgg(data), key+"#kind=RGBA", pos, "the colour itself", shortKey(res))
+		}
+		for _, k := range []struct{ ctor, table string }{{"PaletteIndexColor", "palette"}, {"CRegColor", "cReg"}} {
+			t := typOf(k.ctor)
+			if t == nil {
+				R.Anchor("constructor ivg." + k.ctor)
+				continue
+			}
+			res, _ := run(t)
+			ok := res != nil && res.Op == "index" && res.Args[0].Key() == "$init:param:"+k.table
+			if ok {
+				x, isMod := mod64(res.Args[1])
+				ok = isMod && x.Key() == "$R"
+			}
+			R.Check(ok, key+"#kind="+k.ctor, pos, k.table+"[index & 63]", shortKey(res))
+		}
+		if t := typOf("BlendColor"); t != nil {
+			res, _ := run(t)
+			// each channel k: uint8(((255-t)*c0.k + t*c1.k + 128) / 255) with c0 = DecodeColor1(G).Resolve(..), c1 = DecodeColor1(B).Resolve(..)
+			if res == nil || res.Op != "agg" || len(res.Args) != 4 {
+				R.Bad(key+"#kind=Blend", pos, "an RGBA value with four blended channels", shortKey(res))
+			} else {
+				for k, name := range []string{"R", "G", "B", "A"} {
+					t := res.Args[k]
+					for t.Op == "conv" {
+						t = t.Args[0]
+					}
+					construct := key + "#kind=Blend:" + name
+					if t.Op != "bin" || t.Name != "/" {
+						R.Bad(construct, pos, "(...)/255", shortKey(t))
+						continue
+					}
+					if d, ok := t.Args[1].Int64(); !ok || d != 255 {
+						R.Bad(construct, pos, "division by 255", shortKey(t.Args[1]))
+						continue
+					}
+					env := poly.NewEnv()
+					env.Rename["$R"] = "t"
+					got, ok := env.One(t.Args[0])
+					if !ok {
+						R.Unknown(construct, pos, "numerator has no normal form: "+shortKey(t.Args[0]))
+						continue
+					}
+					// find the two resolved operands among the atoms
+					var c0, c1 string
+					for name, at := range env.Atoms {
+						if at.Op != "field" || at.Name != fmt.Sprint(k) {
+							continue
+						}
+						inner := at.Args[0]
+						if inner.Op == "call" && inner.Name == "Resolve" && len(inner.Args) == 3 && inner.Args[0].Op == "call" && inner.Args[0].Name == "DecodeColor1" &&
+							inner.Args[1].Key() == "&param:palette" && inner.Args[2].Key() == "&param:cReg" {
+							switch inner.Args[0].Args[0].Key() {
+							case "$G":
+								c0 = name
+							case "$B":
+								c1 = name
+							}
+						}
+					}
+					if c0 == "" || c1 == "" {
+						R.Bad(construct, pos, "channel "+name+" of DecodeColor1(c0).Resolve(palette, cReg) and of DecodeColor1(c1).Resolve(palette, cReg)", got.String())
+						continue
+					}
+					want := poly.RatInt(255).Sub(v("t")).Mul(v(c0)).Add(v("t").Mul(v(c1))).Add(poly.RatInt(128))
+					R.Check(got.Equal(want), construct, pos, "((255-t)*c0 + t*c1 + 128)/255", got.String())
+				}
+			}
+		}
+	}
+
 }
